@@ -8,10 +8,9 @@
    construction and any sequence of moves the stored check mask is exactly the set of checking pieces
    (C05_check_mask).  The proof combines complete 64x64 geometric sweeps of the tables (line alignment, between
    sets) with reasoning over all occupancies.
-   PARTIAL: the pin mask characterisation is not a theorem yet; pins are decided by the correspondence run
-   (every ply of every history, the exhaustive king x direction x distance x slider x blocker family, and the
-   mailbox rule cross-check). *)
-Require Import LC.model.Prims LC.model.Board LC.spec.Chess LC.proofs.MaskInv LC.proofs.C06Proofs LC.proofs.C05Proofs.
+   Likewise the pin mask: exactly the own pieces that are the only occupied square strictly between their king
+   and an enemy rook / bishop / queen moving along that line (C05_pin_mask; is_pinned in spec/Chess.v). *)
+Require Import LC.model.Prims LC.model.Board LC.spec.Chess LC.proofs.MaskInv LC.proofs.C06Proofs LC.proofs.C05Proofs LC.proofs.C05Pins.
 Open Scope N_scope.
 Theorem C05_attackers_of_any_square : forall b sq P C, MaskInv b -> sq < 64 -> pins_and_checks b sq = Ok (P, C) ->
   forall a, a < 64 -> has C a = color_at (abs b) (opp (b_stm b)) a && mem sq (attacks_from (abs b) a).
@@ -24,3 +23,13 @@ Proof.
   intros K b R. destruct (reachable_Inv K b R) as [I _]. pose proof (reachable_derived K b R) as D.
   split; [exact (check_mask_spec b I D)|exact (check_mask_small b I D)].
 Qed.
+Theorem C05_pin_mask : forall K b, reachable K b -> forall u, u < 64 -> has (b_pinned b) u = is_pinned (abs b) (b_stm b) u.
+Proof.
+  intros K b R. destruct (reachable_Inv K b R) as [I _]. exact (pin_mask_spec b I (reachable_derived K b R)).
+Qed.
+Theorem C05_pins_of_any_square : forall b k P C, MaskInv b -> k < 64 -> pins_and_checks b k = Ok (P, C) ->
+  forall u, u < 64 -> has P u = color_at (abs b) (b_stm b) u && existsb (fun a =>
+       match piece_at (abs b) a with
+       | Some (t, c') => color_eqb (opp (b_stm b)) c' && existsb (pin_line (abs b) k u a) (slide_dirs t)
+       | None => false end) squares.
+Proof. exact pins_spec. Qed.
